@@ -16,17 +16,17 @@ instance decExSome {α : Type} (o : Option α) (P : α → Prop) [DecidablePred 
     if h : P a then isTrue ⟨a, rfl, h⟩
     else isFalse (by rintro ⟨k, hk, hp⟩; cases hk; exact h hp)
 
-instance (f : DddmpFile) (i2p : List (Tok × Int)) (k c : Int) : Decidable (DddmpChildOK f i2p k c) := by
+instance (f : DddmpFile) (i2p : List (DddmpTok × Int)) (k c : Int) : Decidable (DddmpChildOK f i2p k c) := by
   unfold DddmpChildOK; infer_instance
 
 instance (n : DddmpNode) : Decidable n.IsTerm := by
   unfold DddmpNode.IsTerm; infer_instance
 
-instance (f : DddmpFile) (i2p levels : List (Tok × Int)) (n : DddmpNode) :
+instance (f : DddmpFile) (i2p levels : List (DddmpTok × Int)) (n : DddmpNode) :
     Decidable (n.IsNode f i2p levels) := by
   unfold DddmpNode.IsNode; infer_instance
 
-instance (f : DddmpFile) (i2p levels : List (Tok × Int)) (nv : Int) :
+instance (f : DddmpFile) (i2p levels : List (DddmpTok × Int)) (nv : Int) :
     Decidable (DddmpBodyWF f i2p levels nv) :=
   decidable_of_iff (0 ≤ nv ∧ f.nnodes = some (f.nodes.length : Int) ∧ (f.nodes.map (·.u)).Nodup ∧
       (levels.map (·.1.show)).Nodup ∧ (levels.map (·.2)).Nodup ∧
